@@ -160,12 +160,12 @@ func runTopicSequenceInner(subs, buffered []string, seq []topicAct) ([]topicObs,
 		stable := 0
 		var o topicObs
 		settled := false
-		for i := 0; i < 1500; i++ {
+		for i := 0; i < 6000*settleMult(); i++ {
 			o = observe()
 			k := fmt.Sprint(o)
 			if k == last {
 				stable++
-				if stable >= 5 {
+				if stable >= 15*settleMult() {
 					settled = true
 					break
 				}
@@ -209,7 +209,6 @@ func cmdTopic(args []string) error {
 	return Emit(R)
 }
 
-
 // ---------------------------------------------------------------- climit
 
 // cmdClimit: tokens can be released from any goroutine any number of times; acquire blocks exactly while the
@@ -218,7 +217,9 @@ func cmdTopic(args []string) error {
 func cmdClimit(args []string) error {
 	R := NewResult()
 	rng := Rng()
-	sig := func(class string) map[string]interface{} { return map[string]interface{}{"prop": "C17", "class": class} }
+	sig := func(class string) map[string]interface{} {
+		return map[string]interface{}{"prop": "C17", "class": class}
+	}
 	for round := 0; round < 400; round++ {
 		limit := 1 + rng.Intn(3)
 		cl := climit.New(fmt.Sprintf("db%d", round%3), "verif", limit, nil)
@@ -498,7 +499,9 @@ func cmdCancelLeak(args []string) error {
 			returned = false
 		}
 		R.Add(1, 1, 1)
-		sig := func(class string) map[string]interface{} { return map[string]interface{}{"prop": "C17", "class": class} }
+		sig := func(class string) map[string]interface{} {
+			return map[string]interface{}{"prop": "C17", "class": class}
+		}
 		if !returned {
 			R.Bad(round, sig("loop-does-not-return"), "the sync loop did not return within 5 s after cancellation")
 		}
@@ -564,7 +567,9 @@ func cmdCancelLeak(args []string) error {
 			returned = false
 		}
 		R.Add(1, 1, 1)
-		sig := func(class string) map[string]interface{} { return map[string]interface{}{"prop": "C17", "class": class} }
+		sig := func(class string) map[string]interface{} {
+			return map[string]interface{}{"prop": "C17", "class": class}
+		}
 		if !returned {
 			R.Bad("tokens", sig("loop-does-not-return"), "the sync loop did not return within 5 s after cancellation")
 		}
